@@ -220,6 +220,19 @@ CHECKS = {
         technique="TLA+ input grammar + totality invariant, isolated runtime monitor on real code, TLC trace validation",
         design_ref="DESIGN.md section 5 C04",
     ),
+    "C20": dict(
+        level="exploration",
+        text=("Conc.tla models goroutines running programs of public calls on privately held objects derived from shared read-only "
+              "inputs and enumerates every call-level interleaving of every program tuple (history variable); each schedule is replayed "
+              "deterministically against the real library with digests of the shared inputs, the decoder registries (hook) and every "
+              "live object after each call, and TLC validates Q1 (nothing shared is written), Q2 (each result equals the goroutine's "
+              "solo run, with per-goroutine reused key buffers) and Q3 (no other goroutine's object changes). The same programs run on "
+              "real goroutines under the Go race detector with results compared against solo runs."),
+        note=("Call-level interleavings decide hidden state and aliasing; memory-access-level data races are decided by the race "
+              "detector on the runs performed (writes inside assembly cipher routines are not instrumented). Level: exploration."),
+        technique="TLA+ schedule enumeration replayed on real code with measured footprints, TLC trace validation, Go race detector",
+        design_ref="DESIGN.md section 5 C20",
+    ),
 }
 
 PENDING_REASON = "check not built yet in this revision (planned in DESIGN.md section 5); not claimed until its machinery exists"
